@@ -27,7 +27,11 @@ pub struct Sink {
 impl Sink {
     pub fn new(dir: &Path, cap: usize) -> Sink {
         std::fs::create_dir_all(dir).unwrap();
-        Sink { dir: dir.to_path_buf(), cap, k: 0, n: 0, total: 0, w: None, wal: dir.join("wal.json") }
+        let wal = dir.join("wal.json");
+        // until the first explicit begin(): a death of the process happened while inputs were generated
+        // (playouts, placements, mutations all call into the library)
+        std::fs::write(&wal, json!({"phase": "input generation (playouts / placements / mutations)"}).to_string()).unwrap();
+        Sink { dir: dir.to_path_buf(), cap, k: 0, n: 0, total: 0, w: None, wal }
     }
 
     /// Write-ahead note: the input about to be handed to the library.  If the process dies
@@ -230,6 +234,31 @@ fn gen_chain(prop: &str, n: usize, rng: &mut StdRng, sink: &mut Sink) {
     use rand::seq::SliceRandom;
     use rand::Rng;
     let ctx = query::Ctx::new();
+    if prop == "C14" {
+        // scripted: from the position right after a double step on each file, shuffle the knights back to the
+        // same squares three times; the start (WITH the mark) is a different position from the repeated one
+        for f in double_push_starts() {
+            let b = owlchess::Board::from_fen(&f).unwrap();
+            let seq: [&str; 4] = if b.side() == owlchess::Color::Black { ["g8f6", "g1f3", "f6g8", "f3g1"] } else { ["g1f3", "g8f6", "f3g1", "f6g8"] };
+            let mut c: Option<chain::Chain> = None;
+            sink.begin(&json!({"prop": prop, "scripted": f}));
+            let mut evs = vec![chain::exec(&mut c, &json!({"op": "new", "pos": proj::raw_json(b.raw())}))];
+            evs.push(chain::exec(&mut c, &json!({"op": "calc"})));
+            for _ in 0..4 {
+                for t in seq {
+                    evs.push(chain::exec(&mut c, &json!({"op": "push", "like": {"t": "uci", "text": proj::text_json(t)}})));
+                }
+                evs.push(chain::exec(&mut c, &json!({"op": "calc"})));
+            }
+            evs.push(chain::exec(&mut c, &json!({"op": "set_auto", "filter": "strict"})));
+            if sink.room() < evs.len() {
+                sink.rotate();
+            }
+            for e in evs {
+                sink.emit(&e);
+            }
+        }
+    }
     if prop == "C17" {
         sink.begin(&json!({"prop": prop, "sweep": "ucilist"}));
         let deep = std::env::var("HARNESS_DEEP").is_ok();
@@ -498,6 +527,34 @@ fn gen_misc(prop: &str, n: usize, rng: &mut StdRng, sink: &mut Sink) {
                 }
             }
             println!("CLIMB best_semilegal={}", best);
+            // squares just outside the board in every text position of UCI and SAN moves
+            let fch = ['a', 'h', '`', 'i'];
+            let rch = ['0', '1', '8', '9'];
+            for b in pos.iter().take(4) {
+                for f1 in fch {
+                    for r1 in rch {
+                        for f2 in fch {
+                            for r2 in rch {
+                                let t = format!("{f1}{r1}{f2}{r2}");
+                                for what in ["from_uci", "from_san", "uci"] {
+                                    sink.begin(&json!({"prop": prop, "what": what, "text": t, "fen": b.as_fen()}));
+                                    let mut ev = notation::parse_event(what, &t, b);
+                                    ev["pos"] = proj::raw_json(b.raw());
+                                    sink.emit(&ev);
+                                }
+                            }
+                        }
+                        for t in [format!("N{f1}{r1}"), format!("{f1}{r1}"), format!("Nb{r1}c3"), format!("{f1}x{f1}{r1}"), format!("{f1}{r1}=Q")] {
+                            sink.begin(&json!({"prop": prop, "what": "from_san", "text": t, "fen": b.as_fen()}));
+                            let mut ev = notation::parse_event("from_san", &t, b);
+                            ev["pos"] = proj::raw_json(b.raw());
+                            sink.emit(&ev);
+                        }
+                        sink.begin(&json!({"prop": prop, "what": "coord", "text": format!("{f1}{r1}")}));
+                        sink.emit(&notation::parse_event("coord", &format!("{f1}{r1}"), b));
+                    }
+                }
+            }
             // boundary inputs of every index computation reachable from text: pawn SAN to every square
             let files = "abcdefgh";
             for b in pos.iter().take(12) {
@@ -599,6 +656,32 @@ fn gen_from(prop: &str, posfile: &Path, out: &Path, cap: usize) {
                     }
                 }
                 let _ = &sv;
+                if sink.room() < evs.len() {
+                    sink.rotate();
+                }
+                for e in evs {
+                    sink.emit(&e);
+                }
+            }
+            "C14" | "C17" => {
+                // outcome calculation and automatic outcome under all three filters, walker and printing on a
+                // one-move chain from the family position
+                let mut c: Option<chain::Chain> = None;
+                let mut evs = vec![chain::exec(&mut c, &json!({"op": "new", "pos": proj::raw_json(b.raw())}))];
+                evs.push(chain::exec(&mut c, &json!({"op": "calc"})));
+                for f in ["force", "strict", "relaxed"] {
+                    evs.push(chain::exec(&mut c, &json!({"op": "set_auto", "filter": f})));
+                    evs.push(chain::exec(&mut c, &json!({"op": "clear_outcome"})));
+                }
+                if let Some(m) = posgen::pick_move(&mut rng, &b) {
+                    evs.push(chain::exec(&mut c, &json!({"op": "push", "like": {"t": "move", "m": proj::mv_json(m)}})));
+                    evs.push(chain::exec(&mut c, &json!({"op": "calc"})));
+                    evs.push(chain::exec(&mut c, &json!({"op": "set_auto", "filter": "relaxed"})));
+                    if prop == "C17" {
+                        evs.push(chain::exec(&mut c, &json!({"op": "walk", "steps": ["next", "prev", "end", "prev", "start", "next"]})));
+                        evs.push(chain::exec(&mut c, &json!({"op": "text", "variants": chain::text_variants(&mut rng, true)})));
+                    }
+                }
                 if sink.room() < evs.len() {
                     sink.rotate();
                 }
